@@ -21,8 +21,8 @@ from .. import guards as G
 from ..model import AnalysisError, Unknown, dotted, src
 from . import c04
 
-TECHNIQUE = "emission model of builder code (ICmd constructions read from the AST): branch-sense table, operand/label/register coherence at every emit site, predicate evaluation, register typestate; flush / compile pipeline executed against the repository's own builder bookkeeping by the checker's AST interpreter (static analysis; abstract execution)"
-ENGINES = ["model", "emit", "circuit", "pipeline"]
+TECHNIQUE = "abstract execution of whole objects of the repository by the checker's AST interpreter: a family of host programs written as SDK text runs against the repository's connection, builder, futures and controller and is compared with direct execution of the same program (C05.X); emission model of builder code (ICmd constructions read from the AST): branch-sense table, operand/label/register coherence at every emit site, predicate evaluation, register typestate; flush / compile pipeline executed against the repository's own builder bookkeeping by the checker's AST interpreter (static analysis; abstract execution)"
+ENGINES = ["model", "emit", "circuit", "pipeline", "session"]
 EXPLANATION = (
     "Over sdk/builder.py, sdk/futures.py, sdk/connection.py, lang/ir.py: flip_branch_instr is total over the six conditions, an "
     "involution and the logical negation under the executor's predicates; every if_XX API (connection, builder, futures) passes the "
@@ -32,14 +32,16 @@ EXPLANATION = (
     "concatenated as pre + entry + body (+ break + cleanup) + exit; the ValueAtMost exit branch is evaluated on an integer grid "
     "against `f <= v`; add on futures loads, adds into and stores back the same temporary; the measurement outcome register is the "
     "one stored to the future; flush = pop -> assemble -> instantiate -> send -> reset."
+ " C05.X (abstract execution, nqsa/sdkprog.py): 23 host programs x up to 3 flush placements (69 runs) through the repository's DebugConnection / Builder / futures / QNodeController / Executor, compared with direct execution: add (constants, futures, itself, modulus), six conditions x callback / context x futures / constants, counted loops (both forms, step, count-down, no round, index as value and as array index), foreach / enumerate, loop_until (first / middle / last / never, measured, cleanup code), measurement into future / array / register, register add, nesting to depth three, gates of conditional bodies."
     ' Every early return of the loop assemblers is evaluated over a grid of bodies and bounds: the loop may be dropped only when it cannot run. C05.R: a register is not used in an emitted command after its release. C05.Z: no truthiness test on an int-typed value.'
     " C05.H: the host's shared memory holds the controller's own array object: ret_arr -> _update_shared_memory -> SharedMemory.init_new_array -> Arrays._set_array and both _get_array accessors hand the list on as a bare name / subscript (no copy). C05.K: memoisation keys cover the arguments."
     ' Executed abstractly (checker-side AST interpreter): flip_branch_instr for the six conditions; both branch builders for future / int operands (loads, branch operands, one label, its definition after the body); the four loop emitters with distinguishable arguments; the at-most break for v in -3..4 against f <= v; add on Future / RegFuture for other in {int, register, future} x mod in {None, int}; _build_cmds_measure for 3 bases x explicit rotations x inplace x Future / RegFuture, including that the emitted rotation followed by a Z measurement measures the requested axis.'
 )
 LEVEL_TEXT = (
-    "Static analysis, partial: operand, register, label and branch-sense coherence at every emit site of the control-flow "
-    "constructs (the suite's pattern matcher only sees opcodes). Not decided: equivalence of arbitrary nested programs, array "
-    "initialisation optimisation, host-side future values."
+    "Static analysis with abstract execution, partial: the property as stated for a bounded family of host programs (every construct, nesting to depth "
+    "three, three flush placements; arrays, fresh futures, measurement handles, gates and measurements compared with direct execution after every flush), "
+    "plus operand, register, label and branch-sense coherence at every emit site. Not decided: programs outside the family (larger nesting, counted loops "
+    "whose index never reaches the bound, values read through futures cached before a later flush)."
 )
 LEVEL_NOTE = "branch predicates as checked by C04.B; values of labels and registers at run time are not modelled"
 ASSUMPTIONS = [LEVEL_NOTE]
